@@ -103,7 +103,7 @@ var props = []*PropDef{
 	{
 		ID:     "C07",
 		Level:  "other",
-		Funcs:  append([]string{"code39.getChecksum", "code39.prepare", "code39.EncodeWithColor", "code39.Encode", "code93.prepare"}, base1D...),
+		Funcs:  append([]string{"code39.getChecksum", "code39.prepare", "code39.EncodeWithColor", "code39.Encode", "code93.prepare", "code93.getChecksum"}, base1D...),
 		Tables: []string{"code39/tables", "code93/tables"},
 		Harness: []Harness{
 			{Pkg: "code39", File: "c07_code39_test.go", Run: "^TestVerifC07Code39$", Bound: "cross-check of the Code 39 proof on the running code: round trip through onedspec.C39Decode/C39CheckChar/C39FullASCIIDecode in all four option combinations over all 128 ASCII characters"},
